@@ -334,6 +334,19 @@ impl Runner for R {
                         match r {
                             Ok(v) => vals.push(v),
                             Err(()) => {
+                                // a failed read poisons the unpacker: nothing is left to read,
+                                // everything counts as consumed and every later read fails too
+                                // (otherwise later fields would be taken from inside a broken one)
+                                let mut w2: Vec<Warning> = vec![];
+                                if !u.as_slice().is_empty()
+                                    || !u.is_empty()
+                                    || u.num_bytes_read() != bs.len()
+                                    || u.read_int(&mut w2).is_ok()
+                                    || u.read_raw(1).is_ok()
+                                    || u.read_string().is_ok()
+                                {
+                                    o.fail("C08/not-poisoned-after-error", format!("bytes={} failed kind={} left={}", to_hex(&bs), k, to_hex(u.as_slice())));
+                                }
                                 ok = false;
                                 break;
                             }
